@@ -7,6 +7,7 @@ import MesonModel.Rewrite.PathMatch
 import MesonModel.Rewrite.Script
 import MesonModel.Rewrite.ParenTable
 import MesonModel.Rewrite.CommandLemmas
+import MesonModel.Rewrite.SrcCommandLemmas
 /-
 C17 — rewriter edits are local and keep everything else meaning the same (theorems over the model).
 
@@ -465,5 +466,202 @@ theorem kwargs_set_parses_partial :
     ∀ v ∈ hostileSamples,
       kwSetReadsBack sampleItems ['d'] (.str v) = true ∧ kwSetReadsBack sampleItems ['n', 'e', 'w'] (.str v) = true ∧
       kwSetReadsBack (.pos (.str 0 v false false) .nil) ['k'] (.strList [v, v]) = true := by decide +kernel
+
+/-! ### one more whole command: `target <t> add / rm` of source files and extra files (Rewrite/SrcCommand.lean)
+
+`applySrc` = `add_src_or_extra` / `rm_src_or_extra` on the list node the rewriter works on + the "Sort files" step of
+`process_target` (with `pathname_sort_key`) + `apply_changes`; every real command of the single-directory families is
+compared with it byte for byte (driver command `srccmd`). The theorems speak about the literal-list case: a list node
+(`ArrayNode` / `files(...)`) whose positional arguments are all string literals. -/
+
+/-- on the file text: nothing changes, or exactly the text between the list node's extents is replaced -/
+theorem src_command_local (raw : List Char) (sp : Span) (node : Expr) (root : List Char) (kind : ListKind)
+    (oldT : List (List Char)) (cmd : SrcCmd) (s e : Nat)
+    (hs : startOf (lineOffsets raw) sp = .ok s) (he : endOf (lineOffsets raw) sp = .ok e) :
+    (editSrc root kind oldT cmd node = none ∧ applySrc raw sp node root kind oldT cmd = .ok raw) ∨
+    ∃ n', editSrc root kind oldT cmd node = some n' ∧
+      applySrc raw sp node root kind oldT cmd = .ok (raw.take s ++ newData n' ++ raw.drop e) := by
+  have h := applySrc_eq raw sp node root kind oldT cmd s e hs he
+  cases hc : editSrc root kind oldT cmd node with
+  | none => left; rw [hc] at h; exact ⟨rfl, h⟩
+  | some n' => right; rw [hc] at h; exact ⟨n', rfl, h⟩
+
+theorem plain_beq_newExtra : (ListKind.plain == ListKind.newExtra) = false := by decide
+theorem plain_bne_plain : (ListKind.plain != ListKind.plain) = false := by decide
+
+theorem editArgs_add_plain (root : List Char) (oldT files : List (List Char)) (items : Items) :
+    editArgs root .plain oldT ⟨false, files⟩ items
+      = some ((itemsOfList (sortArgs false (items.posPart ++ toAppend root oldT files))).append items.kwOnly) := by
+  simp [editArgs, plain_beq_newExtra, plain_bne_plain]
+
+theorem editArgs_rm_plain (root : List Char) (oldT files : List (List Char)) (items : Items) :
+    editArgs root .plain oldT ⟨true, files⟩ items
+      = if (rmAll root files items.posPart 0).2 = 0 then none
+        else some ((itemsOfList (sortArgs false (rmAll root files items.posPart 0).1)).append items.kwOnly) := by
+  simp [editArgs, plain_bne_plain]
+
+/-- `add`: the list is queued; afterwards it holds exactly the old literals and one new literal `normpath f` for every requested
+file that was not yet a file of the target (source set = old ∪ new), sorted; keyword arguments untouched -/
+theorem src_add_result (root : List Char) (oldT files : List (List Char)) (items : Items)
+    (h : ∀ e ∈ items.posPart, e.isStr = true) :
+    ∃ items', editArgs root .plain oldT ⟨false, files⟩ items = some items' ∧
+      items'.posPart = sortBy srcLt (items.posPart ++ toAppend root oldT files) ∧ items'.kwPart = items.kwPart ∧
+      ∀ e, e ∈ items'.posPart ↔
+        (e ∈ items.posPart ∨ ∃ f ∈ files, alreadyThere root oldT f = false ∧ e = .str 0 (normpath f) false false) := by
+  have hall : ∀ e ∈ items.posPart ++ toAppend root oldT files, e.isStr = true := by
+    intro e he
+    rcases List.mem_append.mp he with h1 | h1
+    · exact h e h1
+    · exact toAppend_isStr root oldT files e h1
+  have hp : ((itemsOfList (sortArgs false (items.posPart ++ toAppend root oldT files))).append items.kwOnly).posPart
+      = sortBy srcLt (items.posPart ++ toAppend root oldT files) := by
+    rw [posPart_relist, sortArgs_plain_allStr _ hall]
+  refine ⟨_, editArgs_add_plain root oldT files items, hp, kwPart_relist _ _, ?_⟩
+  intro e
+  rw [hp, mem_sortBy, List.mem_append, mem_toAppend]
+
+/-- every literal `add` writes is read back as one string token with the value `normpath f` — for every file name -/
+theorem src_add_literals_read_back (root : List Char) (oldT files : List (List Char)) :
+    ∀ e ∈ toAppend root oldT files, lexString (astPrint e) = some e.strVal := by
+  intro e he
+  obtain ⟨f, _, _, h⟩ := (mem_toAppend root oldT files e).mp he
+  rw [h]
+  exact introduced_string_read_back (normpath f)
+
+/-- `rm`: keyword arguments untouched, nothing is invented, and every literal that no requested file matches stays
+(source set ⊇ old \ removed and ⊆ old) -/
+theorem src_rm_result (root : List Char) (oldT files : List (List Char)) (items items' : Items)
+    (h : ∀ e ∈ items.posPart, e.isStr = true)
+    (he : editArgs root .plain oldT ⟨true, files⟩ items = some items') :
+    items'.kwPart = items.kwPart ∧ (∀ e, e ∈ items'.posPart → e ∈ items.posPart) ∧
+    (∀ e ∈ items.posPart, (∀ f ∈ files, srcMatches root f e = false) → e ∈ items'.posPart) := by
+  have hsub : ∀ e ∈ (rmAll root files items.posPart 0).1, e.isStr = true :=
+    fun e hm => h e (rmAll_subset root files _ 0 e hm)
+  have hi : items' = (itemsOfList (sortArgs false (rmAll root files items.posPart 0).1)).append items.kwOnly := by
+    rw [editArgs_rm_plain] at he
+    split at he
+    · exact absurd he (by simp)
+    · exact (Option.some.inj he).symm
+  have hp : items'.posPart = sortBy srcLt (rmAll root files items.posPart 0).1 := by
+    rw [hi, posPart_relist, sortArgs_plain_allStr _ hsub]
+  refine ⟨by rw [hi, kwPart_relist], ?_, ?_⟩
+  · intro e hm
+    rw [hp, mem_sortBy] at hm
+    exact rmAll_subset root files _ 0 e hm
+  · intro e hm hno
+    rw [hp, mem_sortBy]
+    exact rmAll_keeps root files _ 0 e hm hno
+
+/-- (d) adding a file the list does not hold and removing it again: both commands queue the node, and the list afterwards holds
+exactly the literals it held before (the original source set), keyword arguments untouched -/
+theorem src_add_then_rm_restores (root : List Char) (oldT oldT' : List (List Char)) (f : List Char) (items : Items)
+    (h : ∀ e ∈ items.posPart, e.isStr = true)
+    (hnew : alreadyThere root oldT f = false) (hno : ∀ e ∈ items.posPart, srcMatches root f e = false)
+    (hself : stringMatches root (normpath f) root f = true) :
+    ∃ items1 items2, editArgs root .plain oldT ⟨false, [f]⟩ items = some items1 ∧
+      editArgs root .plain oldT' ⟨true, [f]⟩ items1 = some items2 ∧
+      items2.kwPart = items.kwPart ∧ ∀ e, e ∈ items2.posPart ↔ e ∈ items.posPart := by
+  have hta : toAppend root oldT [f] = [.str 0 (normpath f) false false] := by
+    simp [toAppend, sortedSet, insertSet, hnew]
+  obtain ⟨items1, h1, hp1, hk1, _⟩ := src_add_result root oldT [f] items h
+  rw [hta] at hp1
+  have hpe : srcMatches root f (.str 0 (normpath f) false false) = true := by
+    simp [srcMatches, Expr.isStr, Expr.strVal, hself]
+  obtain ⟨hflag, hmem⟩ := add_then_rm_core srcLt (srcMatches root f) items.posPart (.str 0 (normpath f) false false) hno hpe
+  have hall1 : ∀ e ∈ items1.posPart, e.isStr = true := by
+    intro e he
+    rw [hp1, mem_sortBy] at he
+    rcases List.mem_append.mp he with h2 | h2
+    · exact h e h2
+    · have : e = .str 0 (normpath f) false false := by simpa using h2
+      rw [this]; rfl
+  have hrm : rmAll root [f] items1.posPart 0 = ((removeFirst (srcMatches root f) items1.posPart).1, 1) := by
+    simp [rmAll, hp1, hflag]
+  have hsubR : ∀ e ∈ (removeFirst (srcMatches root f) items1.posPart).1, e.isStr = true :=
+    fun e hm => hall1 e (removeFirst_subset _ _ e hm)
+  have h2 : editArgs root .plain oldT' ⟨true, [f]⟩ items1
+      = some ((itemsOfList (sortArgs false (removeFirst (srcMatches root f) items1.posPart).1)).append items1.kwOnly) := by
+    rw [editArgs_rm_plain, hrm]; simp
+  refine ⟨items1, _, h1, h2, ?_, ?_⟩
+  · rw [kwPart_relist, hk1]
+  · intro e
+    rw [posPart_relist, sortArgs_plain_allStr _ hsubR, mem_sortBy, hp1]
+    exact hmem e
+
+/-- (e) removing a file the list holds once and adding it again (the target's files being the list's literals): the removal
+takes it out, the addition is not skipped, and the list afterwards names exactly the files it named before -/
+theorem src_rm_then_add_keeps (root : List Char) (oldT : List (List Char)) (f : List Char) (items : Items) (e0 : Expr)
+    (h : ∀ e ∈ items.posPart, e.isStr = true) (hnd : items.posPart.Nodup) (hin : e0 ∈ items.posPart)
+    (hm : srcMatches root f e0 = true) (huniq : ∀ y ∈ items.posPart, srcMatches root f y = true → y = e0)
+    (hval : e0.strVal = normpath f) :
+    ∃ items1 items2, editArgs root .plain oldT ⟨true, [f]⟩ items = some items1 ∧
+      e0 ∉ items1.posPart ∧
+      editArgs root .plain (items1.posPart.map Expr.strVal) ⟨false, [f]⟩ items1 = some items2 ∧
+      items2.kwPart = items.kwPart ∧
+      ∀ v, v ∈ items2.posPart.map Expr.strVal ↔ v ∈ items.posPart.map Expr.strVal := by
+  obtain ⟨hflag, hout, _⟩ := rm_then_add_core srcLt (srcMatches root f) items.posPart e0 hnd hin hm huniq
+  have hrm : rmAll root [f] items.posPart 0 = ((removeFirst (srcMatches root f) items.posPart).1, 1) := by
+    simp [rmAll, hflag]
+  have hsubR : ∀ e ∈ (removeFirst (srcMatches root f) items.posPart).1, e.isStr = true :=
+    fun e hm' => h e (removeFirst_subset _ _ e hm')
+  have h1 : editArgs root .plain oldT ⟨true, [f]⟩ items
+      = some ((itemsOfList (sortArgs false (removeFirst (srcMatches root f) items.posPart).1)).append items.kwOnly) := by
+    rw [editArgs_rm_plain, hrm]; simp
+  have hp1 : ((itemsOfList (sortArgs false (removeFirst (srcMatches root f) items.posPart).1)).append items.kwOnly).posPart
+      = sortBy srcLt (removeFirst (srcMatches root f) items.posPart).1 := by
+    rw [posPart_relist, sortArgs_plain_allStr _ hsubR]
+  have hall1 : ∀ e ∈ sortBy srcLt (removeFirst (srcMatches root f) items.posPart).1, e.isStr = true :=
+    fun e he => hsubR e ((mem_sortBy _ _ _).mp he)
+  -- the addition is not skipped: no literal left matches `f`
+  have hnone : (sortBy srcLt (removeFirst (srcMatches root f) items.posPart).1).any (srcMatches root f) = false := by
+    cases hany : (sortBy srcLt (removeFirst (srcMatches root f) items.posPart).1).any (srcMatches root f) with
+    | false => rfl
+    | true =>
+      obtain ⟨y, hy, hpy⟩ := List.any_eq_true.mp hany
+      have hyR := (mem_sortBy _ _ _).mp hy
+      have : y = e0 := huniq y (removeFirst_subset _ _ y hyR) hpy
+      rw [this] at hyR
+      exact absurd hyR hout
+  have hskip : alreadyThere root ((sortBy srcLt (removeFirst (srcMatches root f) items.posPart).1).map Expr.strVal) f = false := by
+    rw [alreadyThere_eq_any root f _ hall1, hnone]
+  obtain ⟨items2, h2, hp2, hk2, hmem2⟩ := src_add_result root
+    ((sortBy srcLt (removeFirst (srcMatches root f) items.posPart).1).map Expr.strVal) [f]
+    ((itemsOfList (sortArgs false (removeFirst (srcMatches root f) items.posPart).1)).append items.kwOnly)
+    (by rw [hp1]; exact hall1)
+  refine ⟨_, items2, h1, ?_, ?_, ?_, ?_⟩
+  · rw [hp1, mem_sortBy]; exact hout
+  · rw [hp1]; exact h2
+  · rw [hk2, kwPart_relist]
+  · intro v
+    simp only [List.mem_map]
+    constructor
+    · rintro ⟨e, he, rfl⟩
+      rcases (hmem2 e).mp he with h3 | ⟨g, hg, _, heq⟩
+      · rw [hp1, mem_sortBy] at h3
+        exact ⟨e, removeFirst_subset _ _ e h3, rfl⟩
+      · have hgf : g = f := by simpa using hg
+        refine ⟨e0, hin, ?_⟩
+        rw [heq, hgf, hval]; rfl
+    · rintro ⟨e, he, rfl⟩
+      cases hpe : srcMatches root f e with
+      | true =>
+        have : e = e0 := huniq e he hpe
+        refine ⟨.str 0 (normpath f) false false, (hmem2 _).mpr (Or.inr ⟨f, by simp, hskip, rfl⟩), ?_⟩
+        rw [this, hval]; rfl
+      | false =>
+        refine ⟨e, (hmem2 e).mpr (Or.inl ?_), rfl⟩
+        rw [hp1, mem_sortBy]
+        exact removeFirst_keeps _ _ e he hpe
+
+/-- the hypotheses of (d) and (e) are satisfiable (`['a.c', 'b.c']`, file `n.c` resp. `a.c`) -/
+example : alreadyThere ['/', 'r'] [['a', '.', 'c'], ['b', '.', 'c']] ['n', '.', 'c'] = false ∧
+    stringMatches ['/', 'r'] (normpath ['n', '.', 'c']) ['/', 'r'] ['n', '.', 'c'] = true ∧
+    srcMatches ['/', 'r'] ['n', '.', 'c'] (.str 1 ['a', '.', 'c'] false false) = false ∧
+    srcMatches ['/', 'r'] ['a', '.', 'c'] (.str 1 ['a', '.', 'c'] false false) = true ∧
+    (Expr.str 1 ['a', '.', 'c'] false false).strVal = normpath ['a', '.', 'c'] := by decide
+
+/-- the sort step on a concrete list: directories before files, numbers by value, case folded (`pathname_sort_key`) -/
+example : (sortBy srcLt [.str 0 "b.c".toList false false, .str 0 "a10.c".toList false false, .str 0 "sub/z.c".toList false false,
+    .str 0 "A2.c".toList false false]).map Expr.strVal = ["sub/z.c".toList, "A2.c".toList, "a10.c".toList, "b.c".toList] := by decide
 
 end MesonModel.Props.C17
